@@ -4,6 +4,11 @@ HERE = os.path.dirname(os.path.dirname(os.path.abspath(__file__)))
 BASE = json.load(open("/root/.vp/BASELINE.json"))["cmd"]
 
 CHECKS = {
+ "C06": dict(
+   technique="bounded exhaustive enumeration of row sequences x all compositions into fit + partial_fit* per policy combination; differential oracle against the single-fit bandit (canonical object-graph identity after generator alignment, else output comparison)",
+   text="Every row sequence up to the length bound over a 4-row alphabet (chunks that omit arms and one-row chunks arise from the compositions) is trained once with a single fit and once through every composition into consecutive chunks; the two bandits must be observationally identical from the same stream position.",
+   note="n<=4 (quick; 3 for non-representative policies under a neighbourhood policy) / n<=5 (thorough); bit-exact for count/sum and neighbourhood policies, 1e-9 for linear; TreeBandit and scale=True excluded by the statement",
+   ref="DESIGN.md section 7 (C06)"),
  "C17": dict(
    technique="explicit-state BFS over valid histories (plus five named stages) x exhaustive catalogue of invalid calls injected at every position; decided by bit-identity of the canonical object graph with the pre-call twin, else by exhaustive continuation comparison",
    text="For every policy combination, at every state of the bounded search and in five named stages (unfitted, fitted, fitted+partial_fit, cold arm listed last / first), every invalid call of the catalogue (~30-42 classes over all eight public methods) is injected once. If the library rejects it, the arm list must be unchanged and the complete object graph must be bit-identical to the twin copied before the call (identical graphs have identical futures); if it differs, every continuation up to depth 2 must give identical outputs.",
